@@ -27,7 +27,7 @@ def main():
         open(path, 'w').write(src.replace(old, new, 1))
         for prop in props.split(','):
             p = subprocess.run([os.path.join(ROOT, 'check'), prop] + extra, stdout=subprocess.PIPE,
-                               stderr=subprocess.STDOUT)
+                               stderr=subprocess.STDOUT, timeout=900)
             out = p.stdout.decode(errors='replace')
             tail = [l for l in out.splitlines() if l.startswith(('VIOLATION', '  [', 'HARNESS', prop))][:8]
             print('%s rc=%d %s' % (prop, p.returncode, 'KILLED' if p.returncode == 1 else 'SURVIVED' if p.returncode == 0 else 'HARNESS'))
